@@ -25,6 +25,10 @@ var c08Binds = []struct{ key, action string }{
 	{"alt-o", "search(ab)"},
 	{"alt-m", "exclude-multi"},
 	{"alt-e", "toggle"},
+	// several edits in one key press: the query before and after has the same length
+	{"alt-b", "backward-delete-char+put(b)"},
+	{"alt-d", "beginning-of-line+delete-char+put(a)"},
+	{"alt-f", "unix-word-rubout+put(ab)"},
 }
 
 func genDelay(r *zsim.Rng) int {
@@ -367,7 +371,7 @@ func c08FrozenQuery(r *sysRun, final bool) (string, bool) {
 					known = false
 				}
 				for _, a := range strings.Split(act, "+") {
-					if strings.HasPrefix(a, "change-query") || a == "clear-query" {
+					if strings.HasPrefix(a, "change-query") || a == "clear-query" || strings.HasPrefix(a, "put(") || isEditAction(a) {
 						m.apply(a)
 					}
 				}
